@@ -81,20 +81,31 @@ func webRoutes(p *an.Prog) []*WebRoute {
 					if !ok || idx >= len(x.Common().Args) {
 						continue
 					}
-					r := &WebRoute{Site: in, In: fn, Pattern: "(server)"}
-					if strings.Contains(name, "Handle") {
-						r.Pattern = "?"
-						if k, ok := x.Common().Args[idx-1].(*ssa.Const); ok && k.Value != nil {
-							r.Pattern = strings.Trim(k.Value.ExactString(), `"`)
+					// a registration inside a loop over a literal table (`for _, rt := range webRoutes { mux.Handle(…) }`)
+					// is one registration per row
+					binds := []map[rowKey]int{nil}
+					if key, n, ok := tableLoopAt(p, in); ok {
+						binds = nil
+						for i := 0; i < n; i++ {
+							binds = append(binds, map[rowKey]int{key: i})
 						}
 					}
-					hv := x.Common().Args[idx]
-					if k, ok := hv.(*ssa.Const); ok && k.IsNil() {
-						r.Terminals = append(r.Terminals, "http.DefaultServeMux")
-					} else {
-						(&hres{p: p, r: r, seen: map[string]bool{}}).resolve(hv, nil, 0)
+					for _, bind := range binds {
+						r := &WebRoute{Site: in, In: fn, Pattern: "(server)"}
+						if strings.Contains(name, "Handle") {
+							r.Pattern = "?"
+							if pat, ok := constStringAt(p, x.Common().Args[idx-1], bind); ok {
+								r.Pattern = pat
+							}
+						}
+						hv := x.Common().Args[idx]
+						if k, ok := hv.(*ssa.Const); ok && k.IsNil() {
+							r.Terminals = append(r.Terminals, "http.DefaultServeMux")
+						} else {
+							(&hres{p: p, r: r, seen: map[string]bool{}, rows: bind}).resolve(hv, nil, 0)
+						}
+						out = append(out, r)
 					}
-					out = append(out, r)
 				case *ssa.Store:
 					fa, ok := x.Addr.(*ssa.FieldAddr)
 					if !ok || !isNamed(fa.X.Type(), "net/http", "Server") || fieldNameOf(fa) != "Handler" {
@@ -127,6 +138,7 @@ type hres struct {
 	p    *an.Prog
 	r    *WebRoute
 	seen map[string]bool
+	rows map[rowKey]int // the registration is being expanded for this row of the literal table its loop ranges over
 }
 
 func (h *hres) unresolved(what string) {
@@ -231,6 +243,16 @@ func (h *hres) resolve(v ssa.Value, env *henv, depth int) {
 		h.resolveLoad(x.X, env, depth)
 	case *ssa.Field:
 		h.resolveField(x.X, x.X.Type(), x.Field, env, depth)
+	case *ssa.Index:
+		// an element of a literal table (array) of handlers / middlewares read by value
+		vals, ok := rowValues(h.p, x, h.rows)
+		if !ok {
+			h.unresolved("handler read from an element of an array that is not a literal table at " + valPos(h.p, v))
+			return
+		}
+		for _, e := range vals {
+			h.resolve(e, env, depth+1)
+		}
 	case *ssa.Extract:
 		if c, ok := x.Tuple.(*ssa.Call); ok {
 			h.resolveCall(c, x.Index, env, depth)
@@ -414,6 +436,16 @@ func (h *hres) resolveLoad(a ssa.Value, env *henv, depth int) {
 		}
 	case *ssa.FieldAddr:
 		h.resolveField(x.X, x.X.Type(), x.Field, env, depth)
+	case *ssa.IndexAddr:
+		// an element of a literal table of handlers / middlewares
+		vals, ok := rowValues(h.p, x, h.rows)
+		if !ok {
+			h.unresolved("handler read from an element of a slice/array that is not a literal table at " + valPos(h.p, a))
+			return
+		}
+		for _, v := range vals {
+			h.resolve(v, env, depth+1)
+		}
 	case *ssa.Global:
 		n := 0
 		for _, f := range h.p.RepoFns {
@@ -487,6 +519,13 @@ func (h *hres) resolveField(base ssa.Value, t types.Type, field int, env *henv, 
 			return
 		}
 		// a spilled receiver (value receiver copied into a local): fall through to the whole type
+	}
+	// the handler column of a literal table row (or of the loop variable the row was copied into)
+	if vals, ok := rowFieldValues(h.p, base, field, h.rows); ok {
+		for _, v := range vals {
+			h.resolve(v, env, depth+1)
+		}
+		return
 	}
 	fv := fieldValues(h.p, T, field)
 	if len(fv.vals) == 0 {
